@@ -14,11 +14,12 @@ ASSUME = [
     "(bit-exact for floats); operands are chosen so that the raw signed operation itself does not overflow",
     "unit algebra of the result rests on C02's theorems; collapse/guard logic on C14's",
 ]
-REPS = ["i8", "u8", "i16", "u16", "i32", "u32", "i64", "u64", "f32", "f64"]
+REPS = ["i8", "u8", "i16", "u16", "i32", "u32", "i64", "u64", "f32", "f64", "f80"]
 CT = {"i8": "int8_t", "u8": "uint8_t", "i16": "int16_t", "u16": "uint16_t", "i32": "int32_t", "u32": "uint32_t",
-      "i64": "int64_t", "u64": "uint64_t", "f32": "float", "f64": "double", "f80": "long double"}
+      "i64": "int64_t", "u64": "uint64_t", "f32": "float", "f64": "double", "f80": "f80_t"}
 
-PRELUDE = r'''#include <cmath>
+PRELUDE = r'''using f80_t = long double;
+#include <cmath>
 #include <cstdint>
 #include <cstdio>
 #include <cstring>
@@ -57,7 +58,7 @@ template <typename R> struct Vals<R, false> {
         return v;
     }
 };
-template <typename T> bool same_bits(T a, T b) { return std::memcmp(&a, &b, sizeof(T)) == 0 || (a != a && b != b); }
+template <typename T> bool same_bits(T a, T b) { return std::memcmp(&a, &b, std::is_same<T, long double>::value ? 10 : sizeof(T)) == 0 || (a != a && b != b); }   // x87 long double: 10 value bytes + padding
 template <typename P, bool IsArith = std::is_arithmetic<P>::value> struct Res;
 template <typename P> struct Res<P, true> {
     using Rep = P; static const char* kind() { return "raw"; } static std::string dim() { return "-"; } static std::string mag() { return "-"; }
@@ -228,7 +229,7 @@ def main(tier, seed):
         sigs = [A.sig(k) for k in keys]
         if len(set(sigs)) != len(sigs):
             continue
-        # every ordered rep pair of the 10 x 10 grid is used before any repeats (seed-drawn order)
+        # every ordered rep pair of the 11 x 11 grid is used before any repeats (seed-drawn order)
         if not rep_grid:
             rep_grid.extend((a, b) for a in REPS for b in REPS)
             rng.shuffle(rep_grid)
